@@ -164,10 +164,10 @@ Definition hdrs (kk : tkey) (k k' : nat) : list row :=
   then [header (iota (S (Z.to_nat (key_rank kk)))) (Z.to_nat (key_rank kk))] else [].
 
 (* kinds whose rows are addressed against the reference space by the nest theorems below
-   (zs = false: the destination side of populate is excluded; intersect_<l> only when the trace
-   is registered - an unregistered one is never written) *)
+   (zs = false: the destination side of populate is excluded; apart from "iter", whose addUse is
+   unconditional, only registered traces - the generators do not call addUse for the others) *)
 Definition addr_scope (zs : bool) (tr : tkey -> bool) (kk : tkey) : bool :=
-  (zs || negb (is_zside (key_kind kk))) && (negb (key_kind kk =? K_INT) || tr kk).
+  (zs || negb (is_zside (key_kind kk))) && ((key_kind kk =? K_ITER) || tr kk).
 
 Definition expect_rows (i : nat) (lv : list level) (pe : list (list Z * env)) (kk : tkey) : list row :=
   let j := Z.to_nat (key_rank kk) in
